@@ -704,7 +704,7 @@ static void run_type(const Alpha<P> &AL, uint64_t &states)
         cs.name = "unary:" + tn;
         cs.n = N;
         cs.counter_names = CN;
-        cs.hang_s = 30;
+        cs.hang_s = 300; // wall-clock backstop only (machine may be heavily loaded); real hang classes are probed under a CPU-time limit
         cs.desc = [&](long long i) { return tn + " unary operations on p = " + AL.S[i].m.str() + " over " + maskstr(AL.S[i].mask); };
         cs.crash_sig = [&](long long, const std::string &oc) { return "unary:" + tn + ":" + oc; };
         cs.body = [&](long long i, Ctx &c) { unary_body<P>(AL, i, c); };
@@ -717,7 +717,7 @@ static void run_type(const Alpha<P> &AL, uint64_t &states)
         cs.name = "conv:" + tn;
         cs.n = EX.size();
         cs.counter_names = CN;
-        cs.hang_s = 30;
+        cs.hang_s = 300; // wall-clock backstop only (machine may be heavily loaded); real hang classes are probed under a CPU-time limit
         cs.desc = [&](long long i) { return tn + " from_basic/as_symbolic of e = " + sstr(EX[i].e); };
         cs.crash_sig = [&](long long, const std::string &oc) { return "conv:" + tn + ":" + oc; };
         cs.body = [&](long long i, Ctx &c) { conv_body<P>(i, c); };
@@ -730,7 +730,7 @@ static void run_type(const Alpha<P> &AL, uint64_t &states)
         cs.name = "pairs:" + tn;
         cs.n = N * N;
         cs.counter_names = CN;
-        cs.hang_s = 30;
+        cs.hang_s = 300; // wall-clock backstop only (machine may be heavily loaded); real hang classes are probed under a CPU-time limit
         cs.desc = [&](long long i) {
             return tn + " a = " + AL.S[i / N].m.str() + " over " + maskstr(AL.S[i / N].mask) + ", b = " + AL.S[i % N].m.str() + " over " + maskstr(AL.S[i % N].mask);
         };
@@ -767,7 +767,7 @@ int main(int argc, char **argv)
         cs.name = "special";
         cs.n = std::max<long long>(64, SP.size());
         cs.counter_names = CN;
-        cs.hang_s = 200;
+        cs.hang_s = 900; // wall backstop; the guarded probes are limited by CPU time
         cs.desc = [&](long long i) { return i < (long long)SP.size() ? SP[i].desc : std::string("(padding)"); };
         cs.crash_sig = [&](long long i, const std::string &oc) { return (i < (long long)SP.size() ? SP[i].sig : std::string("special")) + ":" + oc; };
         cs.body = [&](long long i, Ctx &c) { special_body(i, c); };
